@@ -3,7 +3,9 @@ call plumbing of aw_query/functions.py off the live registry (inspect.signature 
 registered function), recording what the built-in bodies were called with and what they
 did (the model treats bodies as an oracle and is replayed against that record), and the
 wire encoding of cases for the extracted model (coq/Extract/ExC17.v)."""
+import importlib
 import inspect
+import json
 import os
 import signal
 import sys
@@ -12,11 +14,20 @@ import types
 import typing
 from datetime import datetime, timedelta, timezone
 
-from .common import sx
+from .common import sx, VERIF
+
+# The SPECIFICATION of the registered built-ins' interface: the registry of the unchanged tree, frozen by
+# tools/c17_registry.py (function name -> ordered parameters with declared class and has-default flag).
+# What "a wrong top-level argument type" / "a wrong argument count" means is read from this file, never
+# from the signatures of the tree under test (notes/agents/C17.md, "Round 3").
+REGISTRY_SNAPSHOT = os.path.join(VERIF, "corpus", "c17_registry.json")
 
 T_START = datetime(2020, 1, 1, 0, 0, 0, tzinfo=timezone.utc)
 T_END = datetime(2020, 1, 2, 0, 0, 0, tzinfo=timezone.utc)
 QNAME = "q-name"
+HOUR, MINUTE = 3600 * 10 ** 6, 60 * 10 ** 6
+# what the first datastore's bucket "b1" holds: (offset from T_START, duration, data), all in microseconds
+B1_EVENTS = [(i * HOUR, 10 * (i + 1) * MINUTE, {"app": "a%d" % (i % 2), "title": "t%d" % i}) for i in range(3)]
 
 ERR_CODE = {"ParseError": 1, "InterpretError": 2, "FunctionError": 3, "KeyError": 4, "ValueError": 5,
             "IndexError": 6, "AttributeError": 7, "TypeError": 8, "IntegrityError": 9}
@@ -49,7 +60,9 @@ class Impl:
     """One live aw_query with an `echo` built-in registered through the public decorator, a
     memory datastore with one bucket, and recorders spliced below the type-check wrapper."""
 
-    def __init__(self, with_echo=True):
+    def __init__(self, with_echo=True, snapshot=REGISTRY_SNAPSHOT):
+        """snapshot: path of the frozen registry the expectations are taken from (None = describe the live
+        registry only; used by tools/c17_registry.py to write the snapshot)."""
         from aw_core.models import Event
         from aw_datastore import Datastore
         from aw_datastore.storages import MemoryStorage
@@ -58,20 +71,50 @@ class Impl:
         import aw_query.exceptions as X
         self.F, self.Q, self.X = F, Q, X
         self.Datastore = Datastore
+        self.Event = Event
         if with_echo and "echo" not in F.functions:
             @F.q2_function()
             def q2_echo(*args):
                 return list(args)
         self.ds = Datastore(MemoryStorage, testing=True)
-        b = self.ds.create_bucket("b1", type="test", client="c", hostname="h1")
-        b.insert([Event(timestamp=T_START + timedelta(hours=i), duration=timedelta(minutes=10 * (i + 1)),
-                        data={"app": "a%d" % (i % 2), "title": "t%d" % i}) for i in range(3)])
-        self.buckets = sorted(self.ds.buckets())
+        self.cur_ds = self.ds
+        self.contents = {}      # id(datastore) -> {bucket id: [(offset us, duration us, data)]}: what the HARNESS put there
+        self.keep_ds = [self.ds]
+        self.create_bucket(self.ds, "b1", B1_EVENTS)
+        self.buckets = self.buckets_of(self.ds)
         self.calls = None
         self.keep = []          # keeps opaque objects alive so id() stays unique
         self.opaque = {}
+        self.snapshot_path = snapshot
         self.table = self._read_registry()
         self.max_digits = sys.get_int_max_str_digits() if hasattr(sys, "get_int_max_str_digits") else 0
+
+    # -- datastores and their buckets (sessions: creation / deletion / re-creation between queries) ----
+    def new_datastore(self, storage="memory"):
+        """A further Datastore alive beside the first one (two instances at once)."""
+        from aw_datastore import storages
+        cls = {"memory": storages.MemoryStorage, "sqlite": storages.SqliteStorage}[storage]
+        ds = self.Datastore(cls, testing=True)
+        self.keep_ds.append(ds)
+        for b in list(ds.buckets()):        # a file left over by an earlier instance of the same storage
+            ds.delete_bucket(b)
+        return ds
+
+    def create_bucket(self, ds, bid, events=()):
+        """events: (offset from T_START in us, duration in us, data) - recorded on the harness side, so
+        that what a bucket holds (and which buckets exist) never has to be asked of the tree under test."""
+        b = ds.create_bucket(bid, type="test", client="c", hostname="h1")
+        if events:
+            b.insert([self.Event(timestamp=T_START + timedelta(microseconds=o), duration=timedelta(microseconds=d),
+                                 data=dict(data)) for o, d, data in events])
+        self.contents.setdefault(id(ds), {})[bid] = list(events)
+
+    def delete_bucket(self, ds, bid):
+        ds.delete_bucket(bid)
+        del self.contents[id(ds)][bid]
+
+    def buckets_of(self, ds):
+        return sorted(self.contents.get(id(ds), {}))
 
     # -- the registry -----------------------------------------------------------------
     @staticmethod
@@ -82,10 +125,15 @@ class Impl:
         return fn.__closure__[code.co_freevars.index(name)]
 
     def _read_registry(self):
+        """Reads the LIVE registry (and splices the recorders), then takes the interface the expectations
+        and the model's table are built from out of the frozen snapshot: a function named by the snapshot
+        has the snapshot's parameters whatever the live signature says; a function that exists only live
+        falls back to its live signature.  Every difference between the two is kept in
+        self.registry_diffs (the checks report each as a broken tie)."""
         F = self.F
-        table = []
-        self.sigs = {}
-        self.decl = {}         # name -> declared type of every parameter (see declared_type)
+        self.live = {}         # name -> [param dict] as read off the tree under test
+        self.live_kinds = {}   # name -> kinds of the live signature (decoding of recorded body arguments)
+        self.typechecked = {}
         fpath = os.path.abspath(F.__file__)
         for name in sorted(F.functions):
             outer = F.functions[name]
@@ -110,56 +158,106 @@ class Impl:
                 fcell.cell_contents = self._recorder(name, orig)
             if str(inspect.signature(orig)) != str(osig):
                 raise HarnessBroken(f"{name}: wrapper signature differs from the function's")
-            kinds = []
-            decl = []
+            params = []
             for p in osig.parameters.values():
                 d = self.declared_type(orig, p.annotation, f"{name}.{p.name}")
                 if p.kind == p.VAR_POSITIONAL:
-                    if d[0] != "any":
-                        raise HarnessBroken(f"{name}: annotated *args is outside the model")
-                    kinds.append(8)
-                elif p.kind != p.POSITIONAL_OR_KEYWORD:
-                    raise HarnessBroken(f"{name}: parameter kind {p.kind} is outside the model")
-                elif d[0] == "ds":
-                    if p.default is not p.empty:
-                        raise HarnessBroken(f"{name}: Datastore parameter with a default")
-                    kinds.append(0)
-                elif d[0] == "ns":
-                    if p.default is not p.empty:
-                        raise HarnessBroken(f"{name}: namespace parameter with a default")
-                    kinds.append(1)
-                elif p.default is not p.empty:
-                    # a parameter with a default is not type-checked by the decorator (its stated
-                    # condition); its declared type is recorded (coverage: declared_not_checked)
-                    kinds.append(7)
-                elif d[0] == "cls" and d[1] in CHECKED_CLASSES:
-                    # The expectation comes from the DECLARED type (annotation normalised by
-                    # declared_type: List[Event] / typing.List / "list" / Optional[list] /
-                    # Annotated[list, ...] all declare a list), not from what the decorator's own
-                    # test recognises, and not from whether the type-check decorator happens to be
-                    # applied in the registered wrapper chain: a built-in whose declared list / str
-                    # / int / float parameter is not checked must show up as "wrong top-level type
-                    # is not a function error", not be silently modelled as unchecked.
-                    kinds.append(CHECKED_CLASSES[d[1]])
+                    kind = "var_positional"
+                elif p.kind == p.POSITIONAL_OR_KEYWORD:
+                    kind = "positional"
                 else:
-                    # no declared type (any) -> nothing to check.  A declared class outside the
-                    # four (dict, bool, Event, a union, ...) has no kind in the model (6 = plain);
-                    # the by-construction stream of the C17 check still demands a function error
-                    # for every producible value that is not an instance of it.
-                    kinds.append(6)
-                decl.append(d if kinds[-1] != 7 else ("default",) + tuple(d))
+                    raise HarnessBroken(f"{name}: parameter kind {p.kind} is outside the model")
+                params.append({"name": p.name, "kind": kind, "decl": d, "has_default": p.default is not p.empty})
+            self.live[name] = params
+            self.live_kinds[name] = self.kinds_of(name, params)[0]
+            self.typechecked[name] = typechecked
+
+        spec, self.registry_diffs, self.live_only = dict(self.live), [], []
+        self.snapshot = None
+        if self.snapshot_path is not None:
+            try:
+                snap = json.load(open(self.snapshot_path))["functions"]
+            except Exception as e:       # fail closed: without the specification nothing can be expected
+                raise HarnessBroken(f"cannot read the registry snapshot {self.snapshot_path}: {e}")
+            self.snapshot = {n: [dict(p, decl=decl_from_json(p, f"snapshot {n}.{p['name']}")) for p in ps]
+                             for n, ps in snap.items()}
+            for name in sorted(set(self.snapshot) | set(self.live)):
+                if name not in self.snapshot:
+                    self.live_only.append(name)          # e.g. the harness's own `echo`
+                    continue
+                spec[name] = self.snapshot[name]
+                if name not in self.live:
+                    self.registry_diffs.append(f"built-in {name} of the frozen registry is no longer registered")
+                    continue
+                a, b = [param_text(p) for p in self.snapshot[name]], [param_text(p) for p in self.live[name]]
+                if a != b:
+                    self.registry_diffs.append(f"built-in {name}: frozen registry ({', '.join(a)}) / tree under test "
+                                               f"({', '.join(b)})")
+
+        table = []
+        self.sigs = {}
+        self.decl = {}         # name -> declared type of every parameter (see declared_type)
+        for name in sorted(spec):
+            kinds, decl = self.kinds_of(name, spec[name])
             self.decl[name] = decl
-            # required parameters must precede optional ones for the model's counting rule
-            seen_opt = False
-            for k in kinds:
-                if k in (7, 8):
-                    seen_opt = True
-                elif seen_opt:
-                    raise HarnessBroken(f"{name}: required parameter after an optional one")
             body = {"nop": 0, "echo": 1, "query_bucket": 2, "query_bucket_eventcount": 2}.get(name, 3)
             table.append((name, kinds, body))
-            self.sigs[name] = (kinds, body, typechecked)
+            self.sigs[name] = (kinds, body, self.typechecked.get(name, False))
         return table
+
+    @staticmethod
+    def kinds_of(name, params):
+        """Parameter list (snapshot or live) -> the model's parameter kinds + the declared types."""
+        kinds = []
+        decl = []
+        for p in params:
+            d = p["decl"]
+            if p["kind"] == "var_positional":
+                if d[0] != "any":
+                    raise HarnessBroken(f"{name}: annotated *args is outside the model")
+                kinds.append(8)
+            elif d[0] == "ds":
+                if p["has_default"]:
+                    raise HarnessBroken(f"{name}: Datastore parameter with a default")
+                kinds.append(0)
+            elif d[0] == "ns":
+                if p["has_default"]:
+                    raise HarnessBroken(f"{name}: namespace parameter with a default")
+                kinds.append(1)
+            elif p["has_default"]:
+                # a parameter with a default is not type-checked by the decorator (its stated
+                # condition); its declared type is recorded (coverage: declared_not_checked)
+                kinds.append(7)
+            elif d[0] == "cls" and d[1] in CHECKED_CLASSES:
+                # The expectation comes from the DECLARED type (annotation normalised by
+                # declared_type: List[Event] / typing.List / "list" / Optional[list] /
+                # Annotated[list, ...] all declare a list), not from what the decorator's own
+                # test recognises, and not from whether the type-check decorator happens to be
+                # applied in the registered wrapper chain: a built-in whose declared list / str
+                # / int / float parameter is not checked must show up as "wrong top-level type
+                # is not a function error", not be silently modelled as unchecked.
+                kinds.append(CHECKED_CLASSES[d[1]])
+            else:
+                # no declared type (any) -> nothing to check.  A declared class outside the
+                # four (dict, bool, Event, a union, ...) has no kind in the model (6 = plain);
+                # the by-construction stream of the C17 check still demands a function error
+                # for every producible value that is not an instance of it.
+                kinds.append(6)
+            decl.append(d if kinds[-1] != 7 else ("default",) + tuple(d))
+        # required parameters must precede optional ones for the model's counting rule
+        seen_opt = False
+        for k in kinds:
+            if k in (7, 8):
+                seen_opt = True
+            elif seen_opt:
+                raise HarnessBroken(f"{name}: required parameter after an optional one")
+        return kinds, decl
+
+    def describe_live(self):
+        """The live registry in the snapshot's format (tools/c17_registry.py writes this)."""
+        return {name: [dict({"name": p["name"], "kind": p["kind"], "has_default": p["has_default"]},
+                            **decl_to_json(p["decl"])) for p in ps]
+                for name, ps in sorted(self.live.items())}
 
     # -- declared parameter types ---------------------------------------------------------
     def declared_type(self, fn, ann, where, depth=0):
@@ -279,9 +377,9 @@ class Impl:
         return [6, i]
 
     def arg_wire(self, name, i, x):
-        kinds = self.sigs[name][0]
+        kinds = self.live_kinds[name]       # what the body is handed follows the live signature
         k = kinds[i] if i < len(kinds) else None
-        if k == 0 and x is self.ds:
+        if k == 0 and x is self.cur_ds:
             return [0]
         if k == 1 and type(x) is dict and "STARTTIME" in x:
             return [1]
@@ -325,9 +423,11 @@ class Impl:
             return True
         return below and fn == fpath
 
-    def run(self, text, timeout_s=10):
-        """-> dict(outcome=('value', wire) | ('error', class), calls=[...], exc=exception or None)"""
+    def run(self, text, timeout_s=10, ds=None):
+        """-> dict(outcome=('value', wire) | ('error', class), calls=[...], exc=exception or None);
+        ds: the datastore the query runs against (default: the first one)"""
         self.calls = []
+        self.cur_ds = ds if ds is not None else self.ds
 
         def on_alarm(signum, frame):
             raise CaseTimeout()
@@ -337,7 +437,7 @@ class Impl:
         exc = None
         try:
             try:
-                v = self.Q.query(QNAME, text, T_START, T_END, self.ds)
+                v = self.Q.query(QNAME, text, T_START, T_END, self.cur_ds)
                 out = ("value", v)
             except CaseTimeout:
                 out = ("timeout", None)
@@ -357,9 +457,13 @@ class Impl:
     def table_wire(self):
         return [[cps(n), k, b] for n, k, b in self.table]
 
-    def model_case(self, text, r):
+    def model_case(self, text, r, buckets=None):
         """Wire case for the extracted model: the bodies' recorded outcomes become the script.
-        Returns (case_sx, expected_log, expected_outcome) or raises Unsupported."""
+        Returns (case_sx, expected_log, expected_outcome) or raises Unsupported.
+        buckets: the bucket ids that exist in the datastore the query ran against AT THAT POINT of the
+        session (default: those of the first datastore, which the plain streams never change).  The model
+        is a pure function of the text, the registry and this list: it knows nothing of earlier queries."""
+        buckets = self.buckets if buckets is None else buckets
         script = []
         log = []
         for c in r["calls"]:
@@ -371,7 +475,7 @@ class Impl:
             kind, payload = c["out"] if c["out"] else ("exc", CaseTimeout())
             if body == 2:
                 vals = [a[1] for a in c["args"] if a[0] == 2]
-                if vals and vals[0][0] == 1 and "".join(map(chr, vals[0][1])) not in self.buckets:
+                if vals and vals[0][0] == 1 and "".join(map(chr, vals[0][1])) not in buckets:
                     if not (kind == "exc" and self.classify_exc(payload) == "FunctionError"):
                         raise HarnessBroken("bucket pre-check did not raise QueryFunctionException")
                     continue
@@ -388,9 +492,49 @@ class Impl:
             want = [1, ERR_CODE.get(payload, 10)]
         else:
             raise Unsupported(kind)
-        case = sx([0, self.table_wire(), self.max_digits, [cps(b) for b in self.buckets], script,
+        case = sx([0, self.table_wire(), self.max_digits, [cps(b) for b in buckets], script,
                    cps(QNAME), cps(T_START.isoformat()), cps(T_END.isoformat()), cps(text)])
         return case, log, want
+
+
+def decl_to_json(d):
+    """Declared type (Impl.declared_type) -> the snapshot's fields."""
+    if d[0] == "cls":
+        cs = d[1] if isinstance(d[1], tuple) else (d[1],)
+        return {"declared": "cls", "classes": [c.__module__ + "." + c.__qualname__ for c in cs], "optional": bool(d[2])}
+    if d[0] == "other":
+        return {"declared": "other", "text": d[1]}
+    return {"declared": d[0]}
+
+
+def decl_from_json(j, where):
+    """The snapshot's fields -> declared type; fails closed on a class that cannot be found."""
+    form = j.get("declared")
+    if form in ("ds", "ns", "any"):
+        return (form,)
+    if form == "other":
+        return ("other", j.get("text", ""))
+    if form != "cls" or not j.get("classes"):
+        raise HarnessBroken(f"{where}: unreadable declared type {j!r}")
+    cs = []
+    for qual in j["classes"]:
+        mod, _, attr = qual.rpartition(".")
+        try:
+            obj = importlib.import_module(mod)
+            for part in attr.split("."):
+                obj = getattr(obj, part)
+        except Exception as e:
+            raise HarnessBroken(f"{where}: cannot find the declared class {qual}: {e}")
+        if not isinstance(obj, type):
+            raise HarnessBroken(f"{where}: {qual} is not a class")
+        cs.append(obj)
+    return ("cls", cs[0] if len(cs) == 1 else tuple(cs), bool(j.get("optional", False)))
+
+
+def param_text(p):
+    """One parameter as compared between the frozen and the live registry: kind, declared type, whether it
+    has a default (the name is informational: no query text can pass an argument by name)."""
+    return ("*" if p["kind"] == "var_positional" else "") + show_decl(p["decl"]) + (" = <default>" if p["has_default"] else "")
 
 
 def show_decl(d):
